@@ -475,6 +475,27 @@ def writeDirectory (d : Directory) (force : Bool) : Bytes × Bytes × Directory 
   let (cd, fs) := headersOf d.files
   (cd, endRecords d.files.length cd.length d.dirLoc force (maxReader d.files), { d with files := fs })
 
+/-! ### fix-F7g: `GetDirectoryHeader` refuses a ZIP64 entry whose extra block has no room for the ZIP64 field
+
+  `getDirectoryHeader` / `headersOf` / `writeDirectory` above are the record SYNTHESIS (total; this is also the code before
+  fix-F7g, which truncated the 16-bit length silently: `Props.C17.extraRoom_necessary_orig`).  The code as it stands checks
+  `len(f.Extra)+zip64ExtraLen+4 > uint16Max` first and returns an error; `WriteDirectory` passes the error on (whatever it
+  had buffered is discarded by its callers: `MakePatch` and `insertSignature` return the error, no patch is made). -/
+
+/-- the guard: raw re-emission needs nothing; a synthesised ZIP64 record needs `len(Extra) + 28 ≤ 65535` -/
+def dirHeaderOK (f : File) : Bool :=
+  !(f.raw == []) || !(decide (f.csize ≥ u32Max ∨ f.usize ≥ u32Max ∨ f.offset ≥ u32Max)) || decide (f.extra.length + 28 ≤ 65535)
+
+def headersOK (fs : List File) : Bool := fs.all dirHeaderOK
+
+/-- `GetDirectoryHeader` as it stands -/
+def getDirectoryHeaderFx (f : File) : Res (Bytes × File) :=
+  if dirHeaderOK f then .ok (getDirectoryHeader f) else .err "extratoolong"
+
+/-- `WriteDirectory` as it stands: the first entry without room makes it fail -/
+def writeDirectoryFx (d : Directory) (force : Bool) : Res (Bytes × Bytes × Directory) :=
+  if headersOK d.files then .ok (writeDirectory d force) else .err "extratoolong"
+
 /-- `GetOriginalDirectory(trim)` as the code stands: `WriteDirectory(&wcd, nil, false)` resets
     its `bufio.Writer` to a nil writer, buffers the end record and flushes → nil dereference. -/
 def getOriginalDirectory (d : Directory) : Res (Bytes × Bytes) :=
@@ -544,6 +565,7 @@ def rewriteKeep (z : Bytes) (mask : List Bool) (force : Bool) : Res Bytes :=
   | .ok d =>
     match mangle r d.files mask { files := [], size := 0, dirLoc := 0 } [] with
     | .ok (nd, dels) =>
+      if !headersOK nd.files then .err "extratoolong" else   -- fix-F7g
       let (cd, eod, _) := writeDirectory nd force
       .ok (dropRanges z d.dirLoc dels ++ cd ++ eod)
     | .err x => .err x
